@@ -1078,6 +1078,8 @@ class Ctx:
         line = getattr(n, "lineno", 0)
         if isinstance(base, (tuple, list)):
             if isinstance(idx, int):
+                if not -len(base) <= idx < len(base):
+                    raise PyRaise("IndexError", line)  # what python does (was: engine crash reported as mismatch)
                 return base[idx]
             if is_z3(idx) and base and all(is_num(x) for x in base):
                 if self.contract.safety:
@@ -1720,6 +1722,19 @@ class Ctx:
         for t in s.targets:
             if isinstance(t, ast.Name):
                 self.env.pop(t.id, None)
+            elif isinstance(t, ast.Subscript) and not isinstance(t.slice, ast.Slice):
+                # ``del base[key]``: python dict with a concrete key, else the contract hook "__delitem__" [base, key]
+                # (the hook raises PyRaise("KeyError") itself when the key is absent)
+                base = self.ev(t.value)
+                idx = self.ev(t.slice)
+                if isinstance(base, dict) and not is_z3(idx):
+                    if idx not in base:
+                        raise PyRaise("KeyError", s.lineno)
+                    del base[idx]
+                    continue
+                r = self.contract.call(self, "__delitem__", [base, idx], {}, s)
+                if r is NotImplemented:
+                    raise Unsupported(f"del of subscript at line {s.lineno}")
             else:
                 raise Unsupported("del of non-name")
 
